@@ -54,6 +54,8 @@ pub fn show_terr(e: &TemplateError) -> String {
 struct R {
     router: Router<u32>,
     checks: Vec<(&'static str, Check)>,
+    /// type name recorded for every registered constraint name (built-ins: `type_name` of the built-in type)
+    types: Vec<(&'static str, &'static str)>,
     live: Vec<String>,
     /// every template ever inserted successfully (constraint tables keep covering deleted templates)
     ever: Vec<String>,
@@ -61,7 +63,7 @@ struct R {
 
 impl Clone for R {
     fn clone(&self) -> Self {
-        R { router: self.router.clone(), checks: self.checks.clone(), live: self.live.clone(), ever: self.ever.clone() }
+        R { router: self.router.clone(), checks: self.checks.clone(), types: self.types.clone(), live: self.live.clone(), ever: self.ever.clone() }
     }
 }
 
@@ -260,14 +262,14 @@ impl Exec {
                 let full = format!("new {r} {}", table.join(","));
                 match res {
                     Ok(router) => {
-                        self.routers.insert(r, R { router, checks: b.iter().map(|(n, _, c)| (*n, *c)).collect(), live: vec![], ever: vec![] });
+                        self.routers.insert(r, R { router, checks: b.iter().map(|(n, _, c)| (*n, *c)).collect(), types: b.iter().map(|(n, t, _)| (*n, *t)).collect(), live: vec![], ever: vec![] });
                         (full, "ok".to_owned())
                     }
                     Err(p) => (full, panic_msg(p)),
                 }
             }
             ["constraint", r, key] => {
-                let (Some(r), true) = (num(r), palette::CUSTOM_KEYS.contains(key)) else { return bad() };
+                let (Some(r), true) = (num(r), palette::known_key(key)) else { return bad() };
                 let Some(x) = self.routers.get_mut(&r) else { return (line.to_owned(), "bad-router".to_owned()) };
                 let res = catch_unwind(AssertUnwindSafe(|| palette::register(&mut x.router, key)));
                 match res {
@@ -276,6 +278,7 @@ impl Exec {
                         let out = match outcome {
                             Ok(()) => {
                                 x.checks.push((name, check));
+                                x.types.push((name, ty));
                                 "ok".to_owned()
                             }
                             Err(e) => {
@@ -284,6 +287,13 @@ impl Exec {
                                 contains_all(idx, "DuplicateName", &rendered, &[name, existing_type, new_type], &mut self.oracle);
                                 if new_type != ty {
                                     self.oracle.push(format!("O {idx} C19 DuplicateName carries the wrong new type"));
+                                }
+                                match x.types.iter().find(|(n, _)| *n == name) {
+                                    Some((_, t)) if *t == existing_type => {}
+                                    Some((_, t)) => self.oracle.push(format!(
+                                        "O {idx} C19 DuplicateName names {existing_type} as the existing type of '{name}', which was registered by {t}"
+                                    )),
+                                    None => self.oracle.push(format!("O {idx} C13 DuplicateName for '{name}', a name that was never registered")),
                                 }
                                 format!("err DuplicateName {} {} {} R={}", hex(name.as_bytes()), hex(existing_type.as_bytes()), hex(new_type.as_bytes()), hex(rendered.as_bytes()))
                             }
@@ -377,7 +387,9 @@ impl Exec {
                 let mut table: Vec<String> = vec![];
                 for (name, check) in &x.checks {
                     let needle = format!(":{name}}}");
-                    if !x.ever.iter().any(|t| t.contains(&needle)) {
+                    // a group inside braces can assemble a constraint name out of pieces (`{x:u(6)4}`, `{x(:u32)}`): such
+                    // templates get the table of every registered name
+                    if !x.ever.iter().any(|t| t.contains(&needle) || (t.contains(':') && t.contains('('))) {
                         continue;
                     }
                     let mut acc: Vec<&str> = vec![];
